@@ -347,7 +347,7 @@ for pid, lvl in (('C11', 'other'), ('C05', 'other'), ('C03', 'other')):
     PROPS[pid]['units'] = ['pwl_feasible'] + (['pwl_elim'] if pid in ('C11', 'C03') else [])
     PROPS[pid]['level'] = lvl
     PROPS[pid]['assumptions'] = ASSUME_COMMON + ASSUME_SLAB + ASSUME_ND + ASSUME_PWL + PROPS[pid]['assumptions'] + _FEAS_ASSUME + (_ELIM_ASSUME if pid in ('C11', 'C03') else [])
-PROPS['C11']['technique'] = 'Verus contracts on the extracted decision logic around the LP solver (is_edge_feasible, phase_two, phase_inh: faults can only lead to less pruning - for every answer of the LP / tolerance / repair oracles, not only single faults) + bounded fault enumeration (bc faults) with the cfg hook for the tree-level consequences'
+PROPS['C11']['technique'] = 'Verus contracts on the extracted decision logic around the LP solver (is_edge_feasible, phase_two, phase_inh: faults can only lead to less pruning - for every answer of the LP / tolerance / repair oracles, not only single faults) and on infeasible_elimination itself (no panic, termination, well-formedness and node kinds for every answer of the oracles) + bounded fault enumeration (bc faults) with the cfg hook for the tree-level consequences'
 PROPS['C11']['level_text'] = 'Mixed. ' + _FEAS_TEXT + 'This holds for every answer pattern of the oracles, i.e. for any number and kind of LP faults. Also PROVED at tree level (unit pwl_elim, binary trees): ' + _ELIM_TEXT + 'BOUNDED (bc faults, fault enumeration with the cfg hook): the remaining tree-level consequences through infeasible_elimination / pruned composition - same function, sound caches, only less pruning - for every single fault position and kind. ' + PROPS['C11']['level_text']
 PROPS['C05']['technique'] = 'Verus contracts on the extracted witness-producing functions (phase_two, phase_inh: every cached witness passed `contains` for the polytope it is cached for) + bounded replay (bc prune, bc faults[cache]) of the cache contract on whole trees'
 PROPS['C05']['level_text'] = 'Mixed. ' + _FEAS_TEXT + 'BOUNDED (bc prune / faults): that the polytope handed to these functions is the path polytope of the node (PolyhedraGen part: see C09), infeasible marks only on regions without interior, mirror_points results lie in the polytope. ' + PROPS['C05']['level_text']
@@ -364,7 +364,7 @@ _FWD_TEXT = ('PROVED (Verus, unit pwl_forward, every tree, every K >= 2, every l
 PROPS['C06'].update({
     'level': 'other',
     'units': ['pwl_forward', 'pwl_elim'],
-    'technique': 'Verus contract on the extracted forward_if_redundant (the single-branch replacement step: acts exactly on one-feasible / K-1-infeasible decisions, removes exactly the infeasible subtrees, splices the decision out) + bounded replay (bc prune[effective,idempotent], bc distill[effective,idempotent]) with an exact Fourier-Motzkin emptiness oracle for effectiveness and idempotence of the whole elimination',
+    'technique': 'Verus contracts on the extracted forward_if_redundant (the single-branch replacement step: acts exactly on one-feasible / K-1-infeasible decisions, removes exactly the infeasible subtrees, splices the decision out) and infeasible_elimination (idempotence: a tree whose reachable nodes all carry a verdict is left unchanged, and a run in which the LP layer always decides ends in such a tree) + bounded replay (bc prune[effective,idempotent], bc distill[effective,idempotent]) with an exact Fourier-Motzkin emptiness oracle for effectiveness and idempotence of the whole elimination',
     'level_text': 'Mixed. ' + _FWD_TEXT + 'IDEMPOTENCE PROVED (unit pwl_elim) as two clauses of the contract of infeasible_elimination: (i) if every node the traversal can reach (below the root, no proper ancestor other than the root cached infeasible) already carries a verdict - all_decided - the run leaves the arena exactly as it is: no LP call, no state write, no removal; (ii) a run during which the LP layer always decides (lp_decides: no Error answer, every Optimal point inside its polytope within the tolerance of `contains`) ends in a tree that satisfies all_decided (ghost invariants kids_inv: children of a settled, not skipped visited node are visited or waiting; dec_inv: settled visited nodes carry a verdict; phase_two answers "don\'t know" only after an Error or a displaced Optimal point). Hence under lp_decides a second run changes nothing. ' 'BOUNDED only (bc prune / distill, exact emptiness oracle): that after the whole infeasible_elimination no node below the root has an empty region and no decision below the root has a single branch, and idempotence without the lp_decides hypothesis (these depend on the LP answers). ' + PROPS['C06']['level_text'],
     'assumptions': ASSUME_COMMON + ASSUME_SLAB + ASSUME_ND + ASSUME_PWL + PROPS['C06']['assumptions'] + _FWD_ASSUME + _ELIM_ASSUME,
 })
